@@ -244,12 +244,23 @@ def unlink_rule(ctx, d1, expect=None):
             continue
         n += 1
         got = _stores(p)
-        table = {
-            'self._imol.data': ('self._imol.data.copy()', 'flow data COPIED'),
-            'self._thermal_condition': ('self._thermal_condition.copy()', 'T and P COPIED'),
-        }
-        if implied(p.conds, lambda e: "hasattr(imol, '_phase')" in src(e)) is True:
-            table['self._imol._phase'] = ('self._imol._phase.copy()', 'phase COPIED')
+        whole = got.get('self._imol') == 'self._imol.copy()'
+        if whole:
+            # the stream gets an indexer of its own: flow data, phase and view cache are all copies (ends proxy sharing as well)
+            table = {
+                'self._imol': ('self._imol.copy()', 'indexer COPIED (data, phase, view cache)'),
+                'self._thermal_condition': ('self._thermal_condition.copy()', 'T and P COPIED'),
+            }
+        else:
+            table = {
+                'self._imol.data': ('self._imol.data.copy()', 'flow data COPIED'),
+                'self._thermal_condition': ('self._thermal_condition.copy()', 'T and P COPIED'),
+            }
+            if implied(p.conds, lambda e: "hasattr(imol, '_phase')" in src(e)) is True:
+                table['self._imol._phase'] = ('self._imol._phase.copy()', 'phase COPIED')
+            # a proxy shares the indexer OBJECT: copying its parts in place leaves both streams on the same indexer
+            d1.fail('Stream.unlink', 'contract-proxy-indexer', 'unlink copies the parts of self._imol in place but never re-binds self._imol: a proxy, which shares the '
+                    'indexer object itself, keeps sharing every flow after unlink', f, f.node)
         expect('Stream.unlink', f, got, table)
         calls = [e.target for e in p.events if e.kind == 'call']
         if 'self.reset_cache' in calls:
@@ -279,7 +290,7 @@ def unlink_rule(ctx, d1, expect=None):
         if isinstance(n_, ast.Attribute) and isinstance(n_.ctx, ast.Store) and not isinstance(getattr(n_, '_parent', None), ast.AugAssign):
             rebound.add(resolve(src(n_), amap))
     for tgt in sorted(shared):
-        if tgt in rebound:
+        if tgt in rebound or any(tgt.startswith(r + '.') for r in rebound):
             d1.ok('Stream.unlink', '%s (which link_with can share) is re-bound to an object of its own' % tgt, f)
         else:
             d1.fail('Stream.unlink', 'still-shared-' + tgt.split('.')[-1], 'link_with can make %s the very object of the other stream, but unlink never re-binds it: '
